@@ -63,53 +63,17 @@ def nilsimsa(data,target=53):
     for i in range(256):
         if acc[i]>thr: code[i>>3]|=1<<(i&7)
     return bytes(code[::-1])
-if __name__=='__main__':
-    import collections
-    from crysp.tlsh import TLSH, distance
-    from crysp.nilsimsa import Nilsimsa
-    import crysp.nilsimsa as NM
-    t0=b'The best documentation is the UNIX source. After all, this is what the system uses for documentation when it decides what to do next! The manuals paraphrase the source code, often having been written at different times and by different people than who wrote the code. Think of them as guidelines. Sometimes they are more like wishes... Nonetheless, it is all too common to turn to the source and find options and behaviors that are not documented in the manual. Sometimes you find options described in the manual that are unimplemented and ignored by the source.\n'
-    assert tlsh(t0).hex().upper()=='1EF02BEF718027B0160B4391212923ED7F1A463D563B1549B86CF62973B197AD2731F8'
-    assert nilsimsa(b'abcdefgh').hex()=='14c8118000000000030800000004042004189020001308014088003280000078'
-    assert nilsimsa(b'abcdefgh',17).hex()=='001210201001000200470001180808120104800100186080000a044020020500'
-    print('models ok on KATs')
-    texts={'ramp':lambda l:bytes((i*7+i//256)&255 for i in range(l)),'const':lambda l:b'a'*l,'two':lambda l:bytes(97+(i%2) for i in range(l)),
-       'text':lambda l:(t0*8)[:l],'lcg':lambda l:bytes(((i*i*2654435761+i*40503)>>7)&255 for i in range(l))}
-    fails=collections.Counter(); n=0; digs=collections.defaultdict(list)
-    for bk in (48,128,256):
-      for w in (4,5,6,7,8):
-        for ck in (1,3):
-          for l in (0,1,w-1,w,49,50,51,255,256,257,300,700,3300):
-            for tn,tf in texts.items():
-              for force in (False,True):
-                n+=1; d=tf(l)
-                exp=tlsh(d,bk,w,ck,force)
-                try: got=TLSH(bk,w,ck)(d,force)
-                except Exception as e: got='EXC '+type(e).__name__
-                if got!=exp: fails[('tlsh',bk,'expNone' if exp is None else 'expDigest',got if isinstance(got,str) else 'WRONG')]+=1
-                elif exp is not None: digs[(bk,w,ck)].append(exp)
-    # distances
-    dn=0
-    for cfg,L in digs.items():
-        L=sorted(set(L))[:12]
-        objs=[TLSH(*cfg).from_hash(h) for h in L]
-        for i,x in enumerate(L):
-            for j,y in enumerate(L):
-                dn+=1
-                try:
-                    d1=distance(x,y); d2=distance(y,x); d3=distance(objs[i],objs[j]); d4=distance(objs[i],y); d5=distance(x,objs[j])
-                    if not (isinstance(d1,int) and d1>=0 and d1==d2==d3==d4==d5 and (i!=j or d1==0)): fails[('dist',cfg[0],(d1,d2,d3,d4,d5))]+=1
-                except Exception as e: fails[('dist EXC '+type(e).__name__,cfg[0])]+=1
-    for tg in range(256):
-        for d in (b'abcdefgh',t0[:57],b'ab'):
-            n+=1
-            try: got=Nilsimsa(tg)(d)
-            except Exception as e: got='EXC '+type(e).__name__
-            if got!=nilsimsa(d,tg): fails[('nilsimsa',got if isinstance(got,str) else 'WRONG')]+=1
-    for l in range(0,13):
-        d=t0[:l]
-        if Nilsimsa()(d)!=nilsimsa(d): fails[('nilsimsa len',l)]+=1
-    a,b=Nilsimsa()(t0[:50]),Nilsimsa()(t0[3:60])
-    print('nils dist',NM.distance(a,b),NM.distance(b,a),NM.distance(a,a),bin(int.from_bytes(a,'big')^int.from_bytes(b,'big')).count('1'))
-    print(n,'cases',dn,'distance pairs')
-    for k,v in sorted(fails.items(),key=str): print(v,k)
+T0=b'The best documentation is the UNIX source. After all, this is what the system uses for documentation when it decides what to do next! The manuals paraphrase the source code, often having been written at different times and by different people than who wrote the code. Think of them as guidelines. Sometimes they are more like wishes... Nonetheless, it is all too common to turn to the source and find options and behaviors that are not documented in the manual. Sometimes you find options described in the manual that are unimplemented and ignored by the source.\n'
+def nonzero_buckets(data,buckets=128,wnd=5):
+    a=[0]*256
+    for j in range(wnd-1,len(data)):
+        for s,x,y in TRI:
+            if y>wnd-1: break
+            a[bmap(s,data[j],data[j-x],data[j-y])]+=1
+    return sum(1 for x in a[:buckets] if x)
+def selftest():
+    if tlsh(T0).hex().upper()!='1EF02BEF718027B0160B4391212923ED7F1A463D563B1549B86CF62973B197AD2731F8': raise AssertionError('tlsh model vs official vector')
+    if nilsimsa(b'abcdefgh').hex()!='14c8118000000000030800000004042004189020001308014088003280000078': raise AssertionError('nilsimsa model 1')
+    if nilsimsa(b'abcdefgh',17).hex()!='001210201001000200470001180808120104800100186080000a044020020500': raise AssertionError('nilsimsa model 2')
+    if nilsimsa(b'This is a much more ridiculous test because of 21347597.').hex()!='5d9c6a6b22384bcd524a8d414d82237777433fc1a07a02c3e06985d96ecdf8fb': raise AssertionError('nilsimsa model 3')
+    return 4
